@@ -43,6 +43,7 @@ structure Plan where
   failFirst : Bool
   ecal      : Bool
   noHandler : Bool
+  nilRoot   : Bool
   cascs     : List Casc
 
 def parseNode (s : String) : Option Node :=
@@ -51,7 +52,7 @@ def parseNode (s : String) : Option Node :=
   | p :: r :: k :: rs :: rest =>
     let kind := k.toList.headD 't'
     let raw := if rs = "-" then [] else rs.toList
-    let rules := raw.map fun ch => ch == 'o' || ch == 'O'
+    let rules := raw.map fun ch => ch == 'o' || ch == 'O' || ch == 'P'
     let link := (rest.head?.bind (·.toList.head?)).getD 'c'
     if p = "-" then some { parent := none, prule := 0, kind, rules, raw, link := 'c' }
     else do
@@ -92,17 +93,20 @@ def parsePlan (s : String) : Option Plan :=
     let mut ff := false
     let mut ecal := false
     let mut noHandler := false
+    let mut nilRoot := false
     for h in hdr.splitOn "," do
       let v := ((h.drop 1).toString.toNat?).getD 0
       if h.startsWith "W" then workers := v
       if h.startsWith "F" then ff := v == 1
       if h.startsWith "M" then ecal := v == 1
-      if h.startsWith "H" then noHandler := v == 0
+      if h.startsWith "H" then noHandler := noHandler || v == 0
+      -- R0: AddEventAndWait(ev, nil): no handler can be set on the monitor created inside
+      if h.startsWith "R" then nilRoot := v == 0
     let mut cascs : List Casc := []
     for c in cs do
       let us ← parseCasc cascs.length c
       cascs := cascs ++ us
-    some { workers, failFirst := ff, ecal, noHandler, cascs }
+    some { workers, failFirst := ff, ecal, noHandler, nilRoot, cascs }
   | _ => none
 
 def childrenOf (c : Casc) (n k : Nat) : List Nat :=
@@ -199,7 +203,7 @@ def resultOf (p : Plan) (c : Casc) (s : State) (nodeOf : List Nat) : String :=
     let es := if errs.isEmpty then "-" else ",".intercalate (errs.map fun (n, k) => s!"{n}.{k}{cls n k}")
     -- through ECAL sinks the root monitor is created inside the builtin: handler and monitors are not observable
     let hf := if p.ecal then "handler=- fin=-"
-      else if p.noHandler && c.wait && c.startedBy.isNone then s!"handler=- fin={fin.length}/{handed.length}"
+      else if (p.noHandler || (p.nilRoot && (c.nodes[c.root]?).map (·.kind) != some 's')) && c.wait && c.startedBy.isNone then s!"handler=- fin={fin.length}/{handed.length}"
       else s!"handler={s.handlerCalls} fin={fin.length}/{handed.length}"
     s!"ret=1 early={pending.length} {hf} errs={es} foreign=0 nil=0"
 
